@@ -11,7 +11,7 @@ package main
 //              In returns): a value that aliases the line shows up as garbage. Reading back goes through the field list
 //              AND through Dig (the map index of objects with more than 16 fields), and the encoded Root must be valid
 //              JSON that says the same: an inconsistency is reported as (2 #harness:<what>).
-//  which 36    the json decoder against encoding/json: case = ((#doc #extra) ...) on ONE Root,
+//  which 36    the json decoder against encoding/json: case = ((#doc #extra [noMeta]) ...) on ONE Root,
 //              obs-item = (validIn err same validExtra errExtra sameExtra) | (2 #site) | (3); see coq/Model/Decoders/ToJson.v
 //
 // The model side (coq/Model/Decoders/ToJson.v) derives the expected fields from the row the scanner model computes.
@@ -20,6 +20,8 @@ import (
 	"bytes"
 	"encoding/json"
 	"fmt"
+	"os"
+	"path/filepath"
 	"reflect"
 	"sort"
 	"strings"
@@ -71,6 +73,16 @@ func scanParts(k int, cs hx.Sx) (d decoder.Decoder, data []byte, enum func(error
 		return d, hx.Bytes(it[3]), func(e error) int { return msgEnum(e, csvErrs) }
 	}
 	panic("c12: no DecodeToJson for this scanner")
+}
+
+// the family of a proposed finding is emitted only once the coordinator has listed its id
+func knownListed(id string) bool {
+	if os.Getenv("C12_ASSUME_LISTED") != "" { // development aid: behave as if the finding were already listed
+		return true
+	}
+	exe, _ := os.Executable()
+	kf, err := os.ReadFile(filepath.Join(filepath.Dir(filepath.Dir(exe)), "known_findings.json"))
+	return err == nil && bytes.Contains(kf, []byte(id))
 }
 
 func harnessBad(what string) hx.Sx { return hx.L(hx.I(2), hx.S("harness:"+what)) }
@@ -169,11 +181,29 @@ func toJSONOne(k int, root *insaneJSON.Root, item hx.Sx) hx.Sx {
 	})
 }
 
-func execToJSON(k int, cs hx.Sx) hx.Sx {
+// The Root of a pooled pipeline event: born with the production pool of 16 nodes (Spawn may hand out a recycled decoder
+// whose pool an earlier case has grown: ReleasePoolMem brings it back to StartNodePoolSize), and between two events
+// eventPool.resetEvent (pipeline/event.go:414) keeps a pool of up to 64 nodes and re-creates a bigger one.
+func bornRoot() *insaneJSON.Root {
 	root := insaneJSON.Spawn()
+	root.ReleasePoolMem()
+	return root
+}
+
+func betweenEvents(root *insaneJSON.Root) {
+	if root.PoolSize() > 16*4 {
+		root.ReleasePoolMem()
+	}
+}
+
+func execToJSON(k int, cs hx.Sx) hx.Sx {
+	root := bornRoot()
 	defer insaneJSON.Release(root)
 	var out []hx.Sx
-	for _, item := range hx.Items(cs) {
+	for i, item := range hx.Items(cs) {
+		if i > 0 {
+			betweenEvents(root)
+		}
 		o := toJSONOne(k, root, item)
 		out = append(out, o)
 		if isPanicObs(o) {
@@ -219,12 +249,16 @@ func withMeta(doc []byte) []byte {
 
 func execJSONRoundTrip(cs hx.Sx) hx.Sx {
 	d := getDec("json-plain", func() (decoder.Decoder, error) { return decoder.NewJsonDecoder(decoder.Params{}) })
-	root := insaneJSON.Spawn()
+	root := bornRoot()
 	defer insaneJSON.Release(root)
 	var out []hx.Sx
-	for _, item := range hx.Items(cs) {
+	for i, item := range hx.Items(cs) {
+		if i > 0 {
+			betweenEvents(root)
+		}
 		it := hx.Items(item)
 		doc, extra := hx.Bytes(it[0]), hx.Bytes(it[1])
+		noMeta := len(it) > 2 && hx.Truth(it[2]) // Pipeline.In adds meta fields only when the input supplies some
 		orig := append([]byte(nil), doc...)
 		o := framed(doc, func(line []byte) hx.Sx {
 			vin := json.Valid(line)
@@ -236,7 +270,7 @@ func execJSONRoundTrip(cs hx.Sx) hx.Sx {
 			}
 			want := orig
 			same := vin && semEq(want, []byte(root.EncodeToString()))
-			if vin && root.IsObject() { // Pipeline.In adds the meta fields to a decoded object
+			if vin && root.IsObject() && !noMeta { // Pipeline.In adds the meta fields to a decoded object
 				root.AddFieldNoAlloc(root, "verif_meta").MutateToString("m")
 				want = withMeta(orig)
 				same = same && want != nil && root.Dig("verif_meta").AsString() == "m" && semEq(want, []byte(root.EncodeToString()))
@@ -253,6 +287,11 @@ func execJSONRoundTrip(cs hx.Sx) hx.Sx {
 					xerr = true
 				} else if node, ok := res.(*insaneJSON.Node); ok && node != nil {
 					xsame = xin && semEq(extra, node.EncodeToByte()) && vin && semEq(want, []byte(root.EncodeToString()))
+				}
+				// a later action adds a field to the event (add_host, set_time, ...): the Root must still be usable
+				if err == nil && vin && root.IsObject() {
+					root.AddFieldNoAlloc(root, "verif_after").MutateToString("a")
+					xsame = xsame && root.Dig("verif_after").AsString() == "a" && json.Valid([]byte(root.EncodeToString()))
 				}
 			}
 			return hx.L(hx.Bool(vin), hx.I(0), hx.Bool(same), hx.Bool(xin), hx.Bool(xerr), hx.Bool(xsame))
@@ -542,12 +581,40 @@ func bucket(n int) string {
 
 func genJSONRoundTrip(c *hmain.Ctx) {
 	r := c.R
+	// Finding C13-additional-scalar-full-node-pool (insane-json: an additionally decoded bare scalar takes the last slot of
+	// the node pool, the next AddField indexes past it) is reachable through decoder/json.go:74 as well: a case whose trial
+	// run panics after the additional decode of a bare scalar belongs to that family. It goes to the stream
+	// 'json-additional-scalar-full-pool', emitted only once the id C12-json-additional-scalar-full-pool is listed in
+	// known_findings.json (notes/finding-C12-json-additional-scalar-full-pool.md); any other panic is emitted as it is.
+	listed := knownListed("C12-json-additional-scalar-full-pool")
+	rtItems := func(stream string, its []hx.Sx) {
+		cs := hx.L(its...)
+		if trial := hx.Items(c.Prop.Exec(36, cs)); len(trial) > 0 && isPanicObs(trial[len(trial)-1]) {
+			extra := bytes.TrimSpace(hx.Bytes(hx.Items(its[len(trial)-1])[1]))
+			site := hx.Str(hx.Items(trial[len(trial)-1])[1])
+			if len(extra) > 0 && extra[0] != '{' && extra[0] != '[' && strings.Contains(site, "index-range") {
+				if !listed {
+					c.W.Count("skipped_additional_scalar_full_pool(finding_not_listed_yet)")
+					return
+				}
+				stream = "json-additional-scalar-full-pool"
+			}
+		}
+		c.Do(stream, 36, cs, true)
+	}
 	rt := func(stream string, pairs ...string) {
 		var its []hx.Sx
 		for i := 0; i+1 < len(pairs); i += 2 {
 			its = append(its, hx.L(hx.S(pairs[i]), hx.S(pairs[i+1])))
 		}
-		c.Do(stream, 36, hx.L(its...), true)
+		rtItems(stream, its)
+	}
+	rtNoMeta := func(stream string, pairs ...string) {
+		var its []hx.Sx
+		for i := 0; i+1 < len(pairs); i += 2 {
+			its = append(its, hx.L(hx.S(pairs[i]), hx.S(pairs[i+1]), hx.I(1)))
+		}
+		rtItems(stream, its)
 	}
 	flat := func(k int, tag string) string {
 		var b strings.Builder
@@ -600,6 +667,13 @@ func genJSONRoundTrip(c *hmain.Ctx) {
 		rt("json-roundtrip-nodes", arr(n), e)
 		rt("json-roundtrip-nodes", `{"o":`+flat(n, "g")+`,"a":`+arr(n%9)+`}`, extras[(n+3)%len(extras)])
 		rt("json-roundtrip-nodes", flat(n, "f"), "", flat(2, "h"), e, flat(n+1, "f"), extras[(n+1)%len(extras)], flat(n, "k"), "")
+		// without the meta field (its getNode would grow the pool), even and odd node counts, every kind of second document
+		odd := strings.TrimSuffix(flat(n, "f"), "}") + map[bool]string{true: `"q":[]}`, false: `,"q":[]}`}[n == 0]
+		for _, x := range extras {
+			rtNoMeta("json-roundtrip-nodes", flat(n, "f"), x)
+			rtNoMeta("json-roundtrip-nodes", odd, x)
+		}
+		rtNoMeta("json-roundtrip-nodes", odd, " 7 ", flat(n, "g"), `"s"`, odd, "true")
 	}
 	// ---- json-roundtrip-random: valid documents of every shape (all literal kinds, numbers with exponents and signs,
 	// escapes, UTF-8, empty and duplicate keys, white space, nesting to depth 6) and light damage (mostly invalid).
